@@ -560,10 +560,15 @@ func MainRun(args []string) int {
 				} else if len(in.data) > 2500 {
 					scheds = [][]int{{61, 4096, 1}}
 				}
-				for _, sc := range scheds {
+				for si, sc := range scheds {
+					// the compressed stream reaches the Reader whole, byte by byte or in 3-byte pieces
+					if pi == 0 && len(in.data) <= 5000 {
+						srcChunk = []int{0, 1, 3}[(idx+si)%3]
+					}
 					revs, _, _ := readSession(comp, crc, sc, in.data, true, true, len(in.data), nil)
 					all := append(append([]rec.Event(nil), evs...), revs...)
-					w.Write(map[string]interface{}{"input": in.name, "len": len(in.data), "crc": crc, "sched": sc, "nparts": len(part)}, all)
+					w.Write(map[string]interface{}{"input": in.name, "len": len(in.data), "crc": crc, "sched": sc, "nparts": len(part), "srcchunk": srcChunk}, all)
+					srcChunk = 0
 					nExec++
 				}
 			}
